@@ -52,7 +52,14 @@ class Function(Expression, metaclass=abc.ABCMeta):
         return deps
 
     async def eval_args(self, context: EvalContext) -> list[EvalResult]:
-        return list(await asyncio.gather(*(a.eval(context) for a in self.args)))
+        # All arguments are evaluated (concurrently, as before); if some of them fail, the failure of the first failing
+        # argument, in argument order, is reported (and not the one that happens to complete first on the event loop).
+        results = await asyncio.gather(*(a.eval(context) for a in self.args), return_exceptions=True)
+        for result in results:
+            if isinstance(result, BaseException):
+                raise result
+
+        return list(results)
 
     @classmethod
     def validate_arg_kinds(cls, args: list[Expression], pos_list: list[int]) -> None:
